@@ -1,5 +1,6 @@
 // C16 harness: drives the real obfuscation.Obfuscator.ObfuscateJSON (suite
-// "direct") and the HAR collector's own HAR generation (suite "collector",
+// "direct"; also reached through the legacy diagnosis plugin's public
+// GenerateHAR) and the HAR collector's own HAR generation (suite "collector",
 // through the tag-guarded shim harcollector.VerifGenerateHARBodies) on generated
 // JSON documents with colliding names at different depths, arrays of objects,
 // nulls/numbers/booleans and exclusion sets in both notations.
@@ -8,10 +9,16 @@ package main
 
 import (
 	"fmt"
+	"time"
 
+	"lunar/engine/config"
+	lunarMessages "lunar/engine/messages"
+	"lunar/engine/services/diagnoses"
 	harcollector "lunar/engine/streams/processors/har-collector"
 	test_utils "lunar/engine/streams/test-utils"
 	"lunar/engine/utils/obfuscation"
+	sharedConfig "lunar/shared-model/config"
+	"lunar/toolkit-core/clock"
 
 	"github.com/rs/zerolog"
 
@@ -20,9 +27,11 @@ import (
 
 // Case is what a replay file carries: everything needed to re-execute.
 type Case struct {
-	Suite   string   `json:"suite"`             // direct | collector
-	Request bool     `json:"request_direction"` // collector: request body (else response body)
-	Hasher  string   `json:"hasher"`            // md5 | short | fixed
+	Suite   string   `json:"suite"`                          // direct | collector | rawbody
+	Via     string   `json:"via,omitempty"`                  // direct: "" (ObfuscateJSON) | "plugin" (HARGeneratorPlugin.GenerateHAR); rawbody: "collector" | "plugin"
+	Off     bool     `json:"obfuscation_disabled,omitempty"` // rawbody only
+	Request bool     `json:"request_direction"`              // collector: request body (else response body)
+	Hasher  string   `json:"hasher"`                         // md5 | short | fixed
 	Excl    []string `json:"exclusions"`
 	Body    string   `json:"body"`
 	Output  string   `json:"output"` // what the implementation returned
@@ -44,12 +53,40 @@ func exec(k *Case) {
 	k.Output, k.Err = "", ""
 	switch k.Suite {
 	case "direct":
+		if k.Via == "plugin" {
+			k.Output, k.Err = viaPlugin(k, true)
+			return
+		}
 		ob := obfuscation.Obfuscator{Hasher: hasherOf(k.Hasher)}
 		out, err := ob.ObfuscateJSON(k.Body, k.Excl)
 		if err != nil {
 			k.Err = err.Error()
 		}
 		k.Output = out
+	case "rawbody":
+		if k.Via == "plugin" {
+			k.Output, k.Err = viaPlugin(k, !k.Off)
+			return
+		}
+		k.Hasher = "md5"
+		other := `{"other":"direction"}`
+		reqBody, respBody := k.Body, other
+		if !k.Request {
+			reqBody, respBody = other, k.Body
+		}
+		stream := test_utils.NewMockAPIStream(
+			"https://example.com/users/12345?id=7",
+			map[string]string{"authorization": "Bearer t"},
+			map[string]string{"content-type": "text/plain"},
+			reqBody, respBody)
+		rq, rs, err := harcollector.VerifGenerateHARBodies(!k.Off, k.Excl, stream)
+		if err != nil {
+			k.Err = err.Error()
+		}
+		k.Output = rs
+		if k.Request {
+			k.Output = rq
+		}
 	case "collector":
 		k.Hasher = "md5" // fixed inside newAPIStreamObfuscator
 		other := `{"other":"direction","name":"x"}`
@@ -73,6 +110,59 @@ func exec(k *Case) {
 	default:
 		panic("unknown suite " + k.Suite)
 	}
+}
+
+// viaPlugin: the legacy diagnosis plugin's call site, through its public API
+// (HARGeneratorPlugin.GenerateHAR -> extractBody -> ObfuscateJSON with the
+// configured request body paths, plain cursor notation).
+var pluginTree *config.EndpointPolicyTree
+
+func viaPlugin(k *Case, enabled bool) (string, string) {
+	if pluginTree == nil {
+		t, err := config.BuildEndpointPolicyTree([]sharedConfig.EndpointConfig{})
+		if err != nil {
+			panic(err)
+		}
+		pluginTree = t
+	}
+	plugin := diagnoses.NewHARGeneratorPlugin(clock.NewMockClock(),
+		obfuscation.Obfuscator{Hasher: hasherOf(k.Hasher)})
+	cfg := sharedConfig.HARExporterConfig{Obfuscate: sharedConfig.Obfuscate{Enabled: enabled}}
+	other := `{"other":"direction"}`
+	reqBody, respBody := k.Body, other
+	if k.Request || k.Suite == "direct" {
+		cfg.Obfuscate.Exclusions.RequestBodyPaths = k.Excl
+	} else {
+		reqBody, respBody = other, k.Body
+		cfg.Obfuscate.Exclusions.ResponseBodyPaths = k.Excl
+	}
+	onRequest := lunarMessages.OnRequest{
+		ID: "t-1", SequenceID: "1", Method: "POST", Scheme: "http",
+		URL: "example.com/api/v1/endpoint", Path: "api/v1/endpoint", Query: "a=b",
+		Headers: map[string]string{"content-type": "application/json"},
+		Body:    reqBody, Time: time.Unix(1700000000, 0),
+	}
+	onResponse := lunarMessages.OnResponse{
+		ID: "t-1", SequenceID: "1", Method: "POST", URL: "example.com/api/v1/endpoint", Status: 200,
+		Headers: map[string]string{"content-type": "application/json"},
+		Body:    respBody, Time: time.Unix(1700000001, 0),
+	}
+	h, err := plugin.GenerateHAR(onRequest, onResponse, pluginTree, &cfg)
+	if err != nil {
+		return "", err.Error()
+	}
+	if len(h.Log.Entries) != 1 {
+		return "", fmt.Sprintf("expected one entry, got %d", len(h.Log.Entries))
+	}
+	var body interface{} = h.Log.Entries[0].Request.Body
+	if !(k.Request || k.Suite == "direct") {
+		body = h.Log.Entries[0].Response.Content
+	}
+	str, ok := body.(string)
+	if !ok {
+		return "", "body is not a string"
+	}
+	return str, ""
 }
 
 // ---------------------------------------------------------------- Coq terms
@@ -125,13 +215,56 @@ func coqCase(k *Case, doc, out *Node) string {
 
 // ---------------------------------------------------------------- run one case
 
+// runRaw: bodies that are not JSON documents (or obfuscation switched off): the
+// output is a text, compared as such.
+func runRaw(o *c.Out, k Case) {
+	exec(&k)
+	_, perr := parseJSON(k.Body)
+	class := "unparsable"
+	switch {
+	case k.Off:
+		class = "disabled"
+	case k.Body == "":
+		class = "empty"
+	case perr == nil:
+		panic("rawbody case with a body that parses while obfuscation is enabled: " + k.Body)
+	}
+	o.Count("suite=rawbody")
+	o.Count("rawbody=" + class + "/" + k.Via)
+	h := hasherOf(k.Hasher)
+	tbl := c.List([]string{c.Tuple(c.Bytes(k.Body), c.Bytes(h.HashBytes([]byte(k.Body))))})
+	term := c.Tuple(c.B(k.Via == "plugin"), c.B(!k.Off), c.B(k.Request), c.MapList(k.Excl, c.Bytes),
+		c.Bytes(k.Body), tbl, c.Bytes(k.Output))
+	idx := o.Case("rawbody", term, k, class == "unparsable")
+	o.MonitorChecked(1)
+	if k.Err != "" {
+		o.Hit(c.Hit{Suite: "rawbody", Index: idx, Signature: "rawbody:no-output@" + k.Via,
+			Demanded: "a body in the exported entry", Observed: k.Err, Case: k})
+		return
+	}
+	// The property text speaks of JSON bodies; for a body that is not JSON the
+	// only demand made here is that it does not leave in clear.
+	if !k.Off && k.Body != "" && k.Output == k.Body {
+		o.Hit(c.Hit{Suite: "rawbody", Index: idx, Signature: "rawbody:exposed@" + k.Via,
+			Demanded: "with obfuscation enabled a non-JSON body is not exported verbatim",
+			Observed: "output = body = " + fmt.Sprintf("%q", k.Body), Case: k})
+	}
+}
+
 func run(o *c.Out, k Case) {
+	if k.Suite == "rawbody" {
+		runRaw(o, k)
+		return
+	}
 	doc, err := parseJSON(k.Body)
 	if err != nil {
 		panic("generator produced a document the harness can not parse: " + err.Error() + "\n" + k.Body)
 	}
 	exec(&k)
 	o.Count("suite=" + k.Suite)
+	if k.Via != "" {
+		o.Count("via=" + k.Via)
+	}
 	o.Count("hasher=" + k.Hasher)
 	o.Count(fmt.Sprintf("exclusions=%d", len(k.Excl)))
 	leaves := doc.leafCount()
@@ -163,15 +296,33 @@ func run(o *c.Out, k Case) {
 	}
 	nontrivial := res.kept > 0 && res.hidden > 0
 	idx := o.Case(k.Suite, coqCase(&k, doc, out), k, nontrivial)
-	if res.skipped == "" {
-		o.MonitorChecked(1)
-	} else {
-		o.Count("monitor-skipped:" + res.skipped)
-	}
+	o.MonitorChecked(1)
 	for _, h := range res.hits {
 		h.Suite, h.Index, h.Case = k.Suite, idx, k
 		o.Hit(h)
 	}
+	// classifier of finding F-C16c tied to the Coq predicate [ambiguous]: every
+	// document with a key containing '.' / '[', and a sample of the others
+	classifyN++
+	if doc.hasUncleanKeys() || classifyN%8 == 0 {
+		mode := "None"
+		if k.Suite == "collector" {
+			mode = "(Some " + c.B(k.Request) + ")"
+		}
+		flags := ambiguityFlags(&k, doc)
+		o.Case("classify", c.Tuple(mode, c.MapList(k.Excl, c.Bytes), coqJSON(doc), c.MapList(flags, c.B)), k, anyTrue(flags))
+	}
+}
+
+var classifyN int
+
+func anyTrue(bs []bool) bool {
+	for _, b := range bs {
+		if b {
+			return true
+		}
+	}
+	return false
 }
 
 func bucket(n int) string {
@@ -195,14 +346,20 @@ func main() {
 	o := c.NewOut("C16")
 	o.DeclareSuite("direct", "From Verif Require Import C16.Model.", "case_direct", "run_direct")
 	o.DeclareSuite("collector", "From Verif Require Import C16.Model.", "case_collector", "run_collector")
+	o.DeclareSuite("rawbody", "From Verif Require Import C16.Model.", "case_rawbody", "run_rawbody")
+	o.DeclareSuite("classify", "From Verif Require Import C16.Model C16.Spec C16.Classify.", "case_classify", "run_classify")
 	o.Rule("hand-written regression documents, then generated JSON documents (depth <= 4, keys from a " +
 		"small pool so that names collide at different depths, arrays of objects, strings with escapes, " +
-		"numbers, booleans, nulls; a few with repeated keys or keys containing '.'/'[' for the model only) x " +
-		"exclusion sets of 0-3 entries derived from the document's own paths (whole, tails, with a foreign " +
-		"head, inexistent, malformed) in the plain and the `$.request.body`/`$.response.body` notation, " +
-		"through Obfuscator.ObfuscateJSON (md5 / short / fixed hasher) and through the HAR collector's " +
-		"generateHAR for both directions; distinct = distinct (exclusions, document, output); " +
-		"non-trivial = the output has at least one leaf kept because of an exclusion and at least one hashed leaf")
+		"numbers, booleans, nulls; some with repeated keys, some with keys containing '.'/'[', some built so " +
+		"that one exclusion text reads as two different paths) x exclusion sets of 0-3 entries derived from " +
+		"the document's own paths (whole, tails, with a foreign head, inexistent, malformed) in the plain and " +
+		"the `$.request.body`/`$.response.body` notation, through Obfuscator.ObfuscateJSON (md5 / short / fixed " +
+		"hasher), through the legacy diagnosis plugin's GenerateHAR and through the HAR collector's generateHAR " +
+		"for both directions; suite rawbody: bodies that are not JSON, empty bodies, obfuscation switched off, " +
+		"through both call sites; suite classify: the monitor's ambiguity verdict per exclusion against the Coq " +
+		"predicate; distinct = distinct (suite, inputs, output); non-trivial = the output has at least one leaf " +
+		"kept because of an exclusion and at least one hashed leaf (direct, collector) / the body does not parse " +
+		"and obfuscation is on (rawbody) / some exclusion is ambiguous in the document (classify)")
 	var k Case
 	if _, ok := o.ReplayCase(&k); ok {
 		run(o, k)
@@ -228,6 +385,54 @@ func main() {
 			k.Hasher = "short"
 		}
 		k.Excl = g.exclusions(doc, "direct", false)
+		run(o, k)
+	}
+	// the legacy diagnosis plugin's call site: same ObfuscateJSON, plain notation
+	for i := 0; i < o.Scale(150, 1500, 1500); i++ {
+		g := &gen{r: r, small: true}
+		doc := g.document()
+		k := Case{Suite: "direct", Via: "plugin", Body: g.serialize(doc), Hasher: c.Pick(r, []string{"short", "short", "md5", "fixed"})}
+		k.Excl = g.exclusions(doc, "direct", false)
+		run(o, k)
+	}
+	// documents in which an exclusion text reads as two different paths (F-C16c)
+	for i := 0; i < o.Scale(120, 1200, 1200); i++ {
+		g := &gen{r: r, small: true}
+		doc, excl := g.ambiguousDoc()
+		k := Case{Suite: "direct", Body: g.serialize(doc), Hasher: "short", Excl: excl}
+		if r.Chance(1, 4) {
+			k.Suite, k.Hasher, k.Request = "collector", "md5", r.Bool()
+			pre := jpResponse
+			if k.Request {
+				pre = jpRequest
+			}
+			for j := range k.Excl {
+				k.Excl[j] = pre + k.Excl[j]
+			}
+		}
+		run(o, k)
+	}
+	// bodies that are not JSON documents, empty bodies, obfuscation switched off
+	for i := 0; i < o.Scale(150, 1500, 1500); i++ {
+		g := &gen{r: r, small: true}
+		k := Case{Suite: "rawbody", Via: c.Pick(r, []string{"collector", "collector", "plugin"}), Request: r.Bool(), Hasher: "md5"}
+		if k.Via == "plugin" {
+			k.Hasher = c.Pick(r, []string{"short", "md5", "fixed"})
+		}
+		switch x := r.Intn(100); {
+		case x < 70:
+			k.Body = g.rawBody()
+		case x < 80:
+			k.Body = ""
+		default:
+			k.Off = true
+			k.Body = c.Pick(r, []string{g.rawBody(), "", g.serialize(g.document())})
+		}
+		pre := jpResponse
+		if k.Request {
+			pre = jpRequest
+		}
+		k.Excl = c.Pick(r, [][]string{nil, {pre}, {pre + ".name"}, {".name"}, {""}})
 		run(o, k)
 	}
 	for i := 0; i < nColl; i++ {
@@ -280,6 +485,30 @@ func fixedCases() []Case {
 	d(`{"a.b":1,"a":{"b":2}}`, ".a.b")
 	d(`{"a[]":1,"a":[2]}`, ".a[]")
 	d(`{"name":"esc","user":{"name":"n"}}`, ".user.name")
+	// findings F-C16c / F-C16d: the witnesses of the refutation theorems and neighbours
+	d(`{"a.b":"s","a":{"b":"t"}}`, ".a.b")
+	d(`{"a.b":"s","a":{"b":"t"}}`, "$.request.body.a.b")
+	d(`{"a.b":"s","a":{"b":"t"}}`, ".a")
+	d(`{"a.b":"s","a":{"c":"t"}}`, ".a.b") // key with a dot, not ambiguous
+	d(`{"a.b":"s","a":{"b":"t"}}`, ".a.b", ".a")
+	d(`{"x":{"a.b.c":1,"a":{"b.c":2,"b":{"c":3}}}}`, ".x.a.b.c")
+	d(`{"a":"s","b":true,"a":"t"}`)
+	d(`{"a":"s","b":true,"a":"t"}`, "")
+	d(`{"u":{"a":1,"a":2},"v":[{"k":1,"k":{"k":2}}]}`, ".u")
+	d(`{"u":{"a":1,"a":2},"v":[{"k":1,"k":{"k":2}}]}`, ".v[].k")
+	// audit: array positions can not be addressed; the direct API honours either body prefix
+	d(`["x",{"a":["y"]}]`, "[0]", "[*]", "[1].a[0]")
+	d(`{"a":1,"b":2}`, "$.response.body.a")
+	d(`{"a":1,"b":2}`, "$.request.body.b")
+	ks = append(ks, Case{Suite: "direct", Via: "plugin", Hasher: "fixed", Body: un, Excl: []string{".user.name"}})
+	ks = append(ks, Case{Suite: "direct", Via: "plugin", Hasher: "short", Body: `{"a.b":"s","a":{"b":"t"}}`, Excl: []string{".a.b"}})
+	for _, via := range []string{"collector", "plugin"} {
+		for _, body := range []string{"", " ", "not json", `{"name":"top"`, `{"name":"top"}x`} {
+			ks = append(ks, Case{Suite: "rawbody", Via: via, Request: true, Hasher: "md5", Body: body, Excl: []string{"$.request.body"}})
+			ks = append(ks, Case{Suite: "rawbody", Via: via, Request: false, Off: true, Hasher: "md5", Body: body})
+		}
+		ks = append(ks, Case{Suite: "rawbody", Via: via, Request: true, Off: true, Hasher: "md5", Body: un, Excl: []string{".user.name"}})
+	}
 	for _, req := range []bool{true, false} {
 		p, q := "$.request.body", "$.response.body"
 		if !req {
@@ -293,10 +522,11 @@ func fixedCases() []Case {
 		cl(req, un, p+".user.id", `$.request.headers["Authorization"]`)
 		cl(req, un)
 		cl(req, `{"user":{"name":"Alice","id":"12345"}}`, p+".user.id")
+		cl(req, `{"a.b":"s","a":{"b":"t"}}`, p+".a.b")
+		cl(req, `{"a":"s","b":true,"a":"t"}`, p+".b")
 		cl(req, `{"body":{"user":{"name":"n"}},"request":{"body":{"user":{"name":"m"}}},"response":{"body":{"user":{"name":"k"}}}}`, p+".user.name")
 		cl(req, `[{"x":1,"y":[{"x":2}]},{"x":null}]`, p+"[].y[].x")
 		cl(req, un, p+"X.name")
 	}
 	return ks
 }
-
